@@ -93,6 +93,13 @@ pub fn run(reg: &dyn Registry, ctx: &Ctx) -> Outcome {
                 match from_seed_guarded(*ty, s) {
                     Ok(g) => {
                         let img = g.ser().unwrap_or_default();
+                        // (the snapshot layout is not this property's business: the comparison is made only where
+                        // the image is the plain state, i.e. has the seed's length)
+                        if img.len() != s.len() {
+                            ctx.add("images_not_plain_state_info", 1);
+                            images.insert(img);
+                            continue;
+                        }
                         if &img != s {
                             ctx.violation(&key("not-verbatim"), &format!("{}: from_seed({}) has state image {} (seed not used verbatim)", info.name, hex(s), hex(&img)), rep(json!({"from_seed": hex(s)})));
                         }
@@ -109,6 +116,14 @@ pub fn run(reg: &dyn Registry, ctx: &Ctx) -> Outcome {
                 ctx.violation(&key("not-injective"), &format!("{}: {} distinct non-zero seeds gave only {} distinct generators", info.name, seeds.len(), images.len()), json!({"kind":"note"}));
             }
 
+            // a seedless constructor (Default), if the type has one, is a seeding path like any other
+            if let Ok(Some(g)) = guarded(|| ty.default_ctor()) {
+                ctx.add("states", 1);
+                ctx.add("default_constructors", 1);
+                if is_zero_state(*ty, g.as_ref()) {
+                    ctx.violation(&key("zero-state"), &format!("{}: Default::default() is in the all-zero state", info.name), json!({"kind":"note","ctor":"Default::default()"}));
+                }
+            }
             // 3. seed_from_u64 on the u64 alphabet and on complete sub-cubes of the argument
             for x in alphabet::u64_alphabet() {
                 ctx.add("states", 1);
